@@ -150,7 +150,9 @@ def d3(chk, prog):
     # a segment over antitarget / unnamed bins only has no gene of its own (not its neighbour's)
     layouts = [(["B", "Antitarget", "A", "B", "C", "-", "D", "C"], ["B,A", "C,D"]), (["B", "Antitarget", "A", "B", "-", "Antitarget", ".", "CGH"], ["B,A", "-"]),
                (["-", "Antitarget", "Antitarget", "-", "C", "-", "D", "C"], ["-", "C,D"])]
-    for wkind, (genes, wantg) in itertools.product(("positive", "zero-second", "absent"), layouts):
+    # (last layout: bins 3 and 4 lie between the two segments -- filtered out at a breakpoint -- and belong to neither)
+    layouts = [(g_, w_, [[0, 1, 2, 3], [4, 5, 6, 7]]) for g_, w_ in layouts] + [(["B", "Antitarget", "A", "X", "Y", "-", "D", "C"], ["B,A", "D,C"], [[0, 1, 2], [5, 6, 7]])]
+    for wkind, (genes, wantg, groups) in itertools.product(("positive", "zero-second", "absent"), layouts):
         W.reset()
         n = 8
         s = [Term.sym(f"s{i}", 0, INF, True) for i in range(n)]
@@ -182,7 +184,7 @@ def d3(chk, prog):
         def slices(it, table, other, mode, keep_empty, seen=seen):
             seen["args"] = (mode, keep_empty, table, other)
             seen["span_at_aggregation"] = (other.cols["start"].v[0], other.cols["end"].v[-1])
-            return [[0, 1, 2, 3], [4, 5, 6, 7]]
+            return [list(grp) for grp in groups]
         model.prims["skgenome.intersect.iter_slices"] = slices
         model.ext["pd.unique"] = lambda it, v: _unique(v)
         it = Interp(prog, model)
@@ -195,7 +197,6 @@ def d3(chk, prog):
         if out is None:
             continue
         c = out.data.cols
-        groups = [[0, 1, 2, 3], [4, 5, 6, 7]]
         ok = seen.get("args", (None, None))[0] == "outer" and seen["args"][1] is False and seen["args"][3] is segs_frame
         for j, grp in enumerate(groups):
             if w is None:
@@ -250,7 +251,7 @@ def d3(chk, prog):
         it = Interp(prog)
         out = tb3.guard(lambda: it.run(fm.qn, [arr]), wkind)
         if wkind == "empty":
-            tb3.cell(out is None, dict(weights=wkind, got=repr(out)))       # np.nan is modelled as None
+            tb3.cell(missing(out), dict(weights=wkind, got=repr(out)))       # NaN
             continue
         if out is None:
             continue
@@ -548,10 +549,6 @@ def d6(chk, prog):
         for p, root in bad:
             rqn, rparam, where, construct = root
             chk.violate("arg-mutation", f"{rqn}::{construct}", where, f"`{construct}` mutates the object passed as `{p}` to {qn}", witness=dict(chain=eff.chain(qn, p, root)))
-    # the working copy exists
-    fi = prog.fn("cnvlib.segmentation._do_segmentation")
-    cp = [n for n in own_nodes(fi.node) if isinstance(n, ast.Assign) and norm(n.value) == "cnarr.copy()"]
-    chk.decide(bool(cp), "arg-mutation", "_do_segmentation filters a copy (filtered_cn = cnarr.copy())", f"{fi.qn}::working copy", fi.loc(), "the working copy vanished")
 
 
 def run(chk):
